@@ -98,6 +98,24 @@ func ruleC13Orphans(p *Prog, r *Res) {
 				key := fmt.Sprintf("%s failing return#%d cleans up %s", f.Key(), nBlocks, X.Name())
 				covered, missing := false, ""
 				for _, st := range blk.List {
+					// a cleanup helper called with X (or a sub-slice): judged by the helper's own loop over its parameter
+					if es, isExpr := st.(*ast.ExprStmt); isExpr {
+						if hc, isCall := es.X.(*ast.CallExpr); isCall {
+							for ai, a := range hc.Args {
+								if !rangesX(a) {
+									continue
+								}
+								if fn := p.Callee(f.Pkg, hc); fn != nil {
+									if h := p.FnOfObj(fn); h != nil && h.Body() != nil {
+										covered = true
+										if !helperRemovesEach(p, h, paramObj(h, ai)) {
+											missing = "the helper " + h.Key() + " called at line " + fmt.Sprint(lineOf(p.Fset, hc)) + " does not os.Remove the file of every element of its parameter"
+										}
+									}
+								}
+							}
+						}
+					}
 					rs, ok := st.(*ast.RangeStmt)
 					if !ok || !rangesX(rs.X) {
 						continue
@@ -169,4 +187,35 @@ func init() {
 			})
 			r.Floor(rule, 2, n)
 		})
+}
+
+// helperRemovesEach: h ranges over its slice parameter par and calls os.Remove on something derived from the element.
+func helperRemovesEach(p *Prog, h *Fn, par types.Object) bool {
+	if par == nil {
+		return false
+	}
+	info := h.Pkg.TypesInfo
+	found := false
+	inspectShallow(h.Body(), func(x ast.Node) bool {
+		rs, ok := x.(*ast.RangeStmt)
+		if !ok || !sameObj(info, rs.X, par) {
+			return true
+		}
+		elem := identObj(info, rs.Value)
+		ast.Inspect(rs.Body, func(y ast.Node) bool {
+			if c, ok := y.(*ast.CallExpr); ok {
+				if fn := p.Callee(h.Pkg, c); fn != nil && fn.FullName() == "os.Remove" && len(c.Args) == 1 {
+					ast.Inspect(c.Args[0], func(z ast.Node) bool {
+						if id, ok := z.(*ast.Ident); ok && elem != nil && info.Uses[id] == elem {
+							found = true
+						}
+						return true
+					})
+				}
+			}
+			return true
+		})
+		return true
+	})
+	return found
 }
